@@ -50,10 +50,114 @@ func leanList(l []string) string {
 // guards
 
 type walker struct {
-	info  *types.Info
-	fn    string
-	fd    *ast.FuncDecl
-	stack []ast.Node
+	info    *types.Info
+	fn      string
+	fd      *ast.FuncDecl
+	stack   []ast.Node
+	aliases map[string]ast.Expr // locals defined once as length arithmetic (`n := len(x)`, `last := len(x) - 1`)
+}
+
+// collectAliases: single-assignment locals whose definition is length arithmetic
+func collectAliases(fd *ast.FuncDecl) map[string]ast.Expr {
+	defs := map[string]ast.Expr{}
+	writes := map[string]int{}
+	var pure func(e ast.Expr) bool
+	pure = func(e ast.Expr) bool {
+		switch x := e.(type) {
+		case *ast.BasicLit:
+			return x.Kind == token.INT
+		case *ast.Ident:
+			return true
+		case *ast.ParenExpr:
+			return pure(x.X)
+		case *ast.BinaryExpr:
+			return (x.Op == token.ADD || x.Op == token.SUB) && pure(x.X) && pure(x.Y)
+		case *ast.CallExpr:
+			id, ok := x.Fun.(*ast.Ident)
+			return ok && id.Name == "len" && len(x.Args) == 1
+		}
+		return false
+	}
+	ast.Inspect(fd.Body, func(n ast.Node) bool {
+		switch x := n.(type) {
+		case *ast.AssignStmt:
+			for i, l := range x.Lhs {
+				if id, ok := l.(*ast.Ident); ok {
+					writes[id.Name]++
+					if x.Tok == token.DEFINE && len(x.Lhs) == len(x.Rhs) && pure(x.Rhs[i]) {
+						if _, isLit := x.Rhs[i].(*ast.BasicLit); !isLit {
+							if _, isId := x.Rhs[i].(*ast.Ident); !isId {
+								defs[id.Name] = x.Rhs[i]
+							}
+						}
+					}
+				}
+			}
+		case *ast.ValueSpec:
+			for i, id := range x.Names {
+				writes[id.Name]++
+				if len(x.Values) == len(x.Names) && pure(x.Values[i]) {
+					if _, isLit := x.Values[i].(*ast.BasicLit); !isLit {
+						if _, isId := x.Values[i].(*ast.Ident); !isId {
+							defs[id.Name] = x.Values[i]
+						}
+					}
+				}
+			}
+		case *ast.IncDecStmt:
+			if id, ok := x.X.(*ast.Ident); ok {
+				writes[id.Name] += 2
+			}
+		case *ast.UnaryExpr:
+			if x.Op == token.AND {
+				if id, ok := x.X.(*ast.Ident); ok {
+					writes[id.Name] += 2
+				}
+			}
+		case *ast.RangeStmt:
+			for _, e := range []ast.Expr{x.Key, x.Value} {
+				if id, ok := e.(*ast.Ident); ok {
+					writes[id.Name] += 2
+				}
+			}
+		}
+		return true
+	})
+	for n := range defs {
+		if writes[n] != 1 {
+			delete(defs, n)
+		}
+	}
+	return defs
+}
+
+// lenExpr: is e ≡ len(base) + d (through aliases) ?
+func (w *walker) lenExpr(e ast.Expr, base string, depth int) (int, bool) {
+	if depth > 4 {
+		return 0, false
+	}
+	switch x := e.(type) {
+	case *ast.ParenExpr:
+		return w.lenExpr(x.X, base, depth)
+	case *ast.CallExpr:
+		if lenOf(x, base) {
+			return 0, true
+		}
+	case *ast.Ident:
+		if d, ok := w.aliases[x.Name]; ok {
+			return w.lenExpr(d, base, depth+1)
+		}
+	case *ast.BinaryExpr:
+		if k, ok := intLit(x.Y); ok && (x.Op == token.ADD || x.Op == token.SUB) {
+			if d, ok := w.lenExpr(x.X, base, depth); ok {
+				if x.Op == token.ADD {
+					return d + k, true
+				}
+				return d - k, true
+			}
+		}
+	}
+	return 0, false
 }
 
 func intLit(e ast.Expr) (int, bool) {
@@ -75,16 +179,17 @@ func lenOf(e ast.Expr, base string) bool {
 }
 
 // impliesLenGreater: does `cond` being TRUE imply len(base) > c ?
-func impliesLenGreater(cond ast.Expr, base string, c int) bool {
+func (w *walker) impliesLenGreater(cond ast.Expr, base string, c int) bool {
 	switch x := cond.(type) {
 	case *ast.ParenExpr:
-		return impliesLenGreater(x.X, base, c)
+		return w.impliesLenGreater(x.X, base, c)
 	case *ast.BinaryExpr:
 		if x.Op == token.LAND {
-			return impliesLenGreater(x.X, base, c) || impliesLenGreater(x.Y, base, c)
+			return w.impliesLenGreater(x.X, base, c) || w.impliesLenGreater(x.Y, base, c)
 		}
-		if lenOf(x.X, base) {
+		if d, ok := w.lenExpr(x.X, base, 0); ok {
 			if k, ok := intLit(x.Y); ok {
+				k -= d // len(base) + d <op> k  ⇔  len(base) <op> k - d
 				switch x.Op {
 				case token.GTR:
 					return k >= c
@@ -100,16 +205,17 @@ func impliesLenGreater(cond ast.Expr, base string, c int) bool {
 }
 
 // refutesLenGreater: does `cond` being FALSE imply len(base) > c ?  (cond is a disjunction that covers len(base) <= c)
-func refutesLenGreater(cond ast.Expr, base string, c int) bool {
+func (w *walker) refutesLenGreater(cond ast.Expr, base string, c int) bool {
 	switch x := cond.(type) {
 	case *ast.ParenExpr:
-		return refutesLenGreater(x.X, base, c)
+		return w.refutesLenGreater(x.X, base, c)
 	case *ast.BinaryExpr:
 		if x.Op == token.LOR {
-			return refutesLenGreater(x.X, base, c) || refutesLenGreater(x.Y, base, c)
+			return w.refutesLenGreater(x.X, base, c) || w.refutesLenGreater(x.Y, base, c)
 		}
-		if lenOf(x.X, base) {
+		if d, ok := w.lenExpr(x.X, base, 0); ok {
 			if k, ok := intLit(x.Y); ok {
+				k -= d
 				switch x.Op {
 				case token.EQL:
 					return k == 0 && c == 0
@@ -149,10 +255,10 @@ func (w *walker) lenGuarded(base string, c int) bool {
 		child := w.stack[i+1]
 		switch p := w.stack[i].(type) {
 		case *ast.IfStmt:
-			if p.Body == child && impliesLenGreater(p.Cond, base, c) {
+			if p.Body == child && w.impliesLenGreater(p.Cond, base, c) {
 				return true
 			}
-			if p.Else == child && refutesLenGreater(p.Cond, base, c) {
+			if p.Else == child && w.refutesLenGreater(p.Cond, base, c) {
 				return true
 			}
 		case *ast.BlockStmt:
@@ -160,8 +266,19 @@ func (w *walker) lenGuarded(base string, c int) bool {
 				if s == child {
 					break
 				}
-				if is, ok := s.(*ast.IfStmt); ok && is.Init == nil && terminates(is.Body) && refutesLenGreater(is.Cond, base, c) {
+				if is, ok := s.(*ast.IfStmt); ok && is.Init == nil && terminates(is.Body) && w.refutesLenGreater(is.Cond, base, c) {
 					return true
+				}
+			}
+		case *ast.CaseClause:
+			// `switch len(base) { case k: … }`
+			if i > 1 {
+				if sw, ok := w.stack[i-2].(*ast.SwitchStmt); ok && sw.Tag != nil && len(p.List) == 1 {
+					if d, ok := w.lenExpr(sw.Tag, base, 0); ok {
+						if k, ok := intLit(p.List[0]); ok && k-d > c {
+							return true
+						}
+					}
 				}
 			}
 		case *ast.FuncLit:
@@ -183,8 +300,29 @@ func (w *walker) madeWithLen(base, of string) bool {
 		if !ok || len(c.Args) != 2 {
 			return true
 		}
-		if id, ok := c.Fun.(*ast.Ident); ok && id.Name == "make" && lenOf(c.Args[1], of) {
-			found = true
+		if id, ok := c.Fun.(*ast.Ident); ok && id.Name == "make" {
+			if d, ok := w.lenExpr(c.Args[1], of, 0); ok && d >= 0 {
+				found = true
+			}
+		}
+		return true
+	})
+	ast.Inspect(w.fd.Body, func(n ast.Node) bool {
+		vs, ok := n.(*ast.ValueSpec)
+		if !ok || len(vs.Names) != len(vs.Values) {
+			return true
+		}
+		for i, id := range vs.Names {
+			if id.Name != base {
+				continue
+			}
+			if c, ok := vs.Values[i].(*ast.CallExpr); ok && len(c.Args) == 2 {
+				if f, ok := c.Fun.(*ast.Ident); ok && f.Name == "make" {
+					if d, ok := w.lenExpr(c.Args[1], of, 0); ok && d >= 0 {
+						found = true
+					}
+				}
+			}
 		}
 		return true
 	})
@@ -212,6 +350,13 @@ func (w *walker) indexClass(x *ast.IndexExpr) string {
 		}
 		return ""
 	}
+	// len(base) - k, directly or through a local: needs len(base) >= k
+	if d, ok := w.lenExpr(x.Index, base, 0); ok {
+		if d < 0 && w.lenGuarded(base, -d-1) {
+			return "index from the end under a length check"
+		}
+		return ""
+	}
 	id, ok := x.Index.(*ast.Ident)
 	if !ok {
 		return ""
@@ -231,8 +376,39 @@ func (w *walker) indexClass(x *ast.IndexExpr) string {
 			}
 		case *ast.ForStmt:
 			if as, ok := p.Init.(*ast.AssignStmt); ok && len(as.Lhs) == 1 && exprStr(as.Lhs[0]) == id.Name {
-				if be, ok := p.Cond.(*ast.BinaryExpr); ok && be.Op == token.LSS && exprStr(be.X) == id.Name && lenOf(be.Y, base) {
-					return "index by the counter of a loop bounded by len of the same slice"
+				if be, ok := p.Cond.(*ast.BinaryExpr); ok && be.Op == token.LSS && exprStr(be.X) == id.Name {
+					if d, ok := w.lenExpr(be.Y, base, 0); ok && d <= 0 {
+						return "index by the counter of a loop bounded by len of the same slice"
+					}
+					// the bound is the length of another slice and `base` was made with that length
+					var of string
+					ast.Inspect(be.Y, func(n ast.Node) bool {
+						if c, ok := n.(*ast.CallExpr); ok && len(c.Args) == 1 {
+							if f, ok := c.Fun.(*ast.Ident); ok && f.Name == "len" {
+								of = exprStr(c.Args[0])
+							}
+						}
+						return true
+					})
+					if of == "" {
+						if a, ok := be.Y.(*ast.Ident); ok {
+							if def, ok := w.aliases[a.Name]; ok {
+								ast.Inspect(def, func(n ast.Node) bool {
+									if c, ok := n.(*ast.CallExpr); ok && len(c.Args) == 1 {
+										if f, ok := c.Fun.(*ast.Ident); ok && f.Name == "len" {
+											of = exprStr(c.Args[0])
+										}
+									}
+									return true
+								})
+							}
+						}
+					}
+					if of != "" {
+						if d, ok := w.lenExpr(be.Y, of, 0); ok && d <= 0 && w.madeWithLen(base, of) {
+							return "index by a loop counter into a slice made with that length"
+						}
+					}
 				}
 				return ""
 			}
@@ -258,7 +434,25 @@ func (w *walker) indexClass(x *ast.IndexExpr) string {
 }
 
 func (w *walker) sliceClass(x *ast.SliceExpr) string {
-	if x.High != nil || x.Max != nil {
+	if x.Max != nil {
+		return ""
+	}
+	if x.High != nil {
+		// x[c : len(x)-k]: needs c <= len(x)-k
+		base := exprStr(x.X)
+		c := 0
+		if x.Low != nil {
+			k, ok := intLit(x.Low)
+			if !ok {
+				return ""
+			}
+			c = k
+		}
+		if d, ok := w.lenExpr(x.High, base, 0); ok && d <= 0 {
+			if c+(-d) == 0 || w.lenGuarded(base, c-d-1) {
+				return "constant slice bounds under a length check"
+			}
+		}
 		return ""
 	}
 	if x.Low == nil {
@@ -496,7 +690,7 @@ func main() {
 							return true
 						})
 					}
-					w := &walker{info: info, fn: fn, fd: fd}
+					w := &walker{info: info, fn: fn, fd: fd, aliases: collectAliases(fd)}
 					ast.Inspect(fd.Body, func(n ast.Node) bool {
 						if n == nil {
 							w.stack = w.stack[:len(w.stack)-1]
